@@ -274,6 +274,12 @@ func main() {
 				}
 				continue
 			}
+			if f := strings.Fields(sc.Text()); len(f) >= 2 && f[0] == "C03" && f[1] == "hist" {
+				if c, ok := parseHist(f); ok {
+					out.Line("%s => %s", c.input(), runHist(c))
+				}
+				continue
+			}
 			if f := strings.Fields(sc.Text()); len(f) >= 2 && f[0] == "C03" && f[1] == "block" {
 				if c, ok := parseBlock(f); ok {
 					out.Line("%s => %s", c.input(), runBlock(c))
@@ -286,7 +292,7 @@ func main() {
 		}
 		return
 	}
-	if su := a.Extra["suite"]; su == "raw" || su == "block" || su == "seq" {
+	if su := a.Extra["suite"]; su == "raw" || su == "block" || su == "seq" || su == "hist" {
 		total := a.N
 		if total < 0 {
 			total = 1500
@@ -298,7 +304,10 @@ func main() {
 			if a.Only >= 0 && k != a.Only {
 				continue
 			}
-			if su == "seq" {
+			if su == "hist" {
+				c := genHist(root.Fork(uint64(k)))
+				out.Line("%s => %s", c.input(), runHist(c))
+			} else if su == "seq" {
 				c := genSeq(root.Fork(uint64(k)))
 				out.Line("%s => %s", c.input(), runSeq(c))
 			} else if su == "raw" {
